@@ -303,6 +303,10 @@ def op_dim(res, qs, mag):
         gotd = cu.get_physical_dimensionality(q)
         verdicts = _obs(lambda: (bool(gotd == dimsum(ref)), bool(dimsum(ref) == gotd)))
         bad = None if verdicts == (True, True) else ("own dimensionality", verdicts)
+        # the same dimension reached along two routes that leave cancelled (zero) entries under different keys
+        va = _obs(lambda: (bool(dimsum(ref) + cu.time - cu.time == dimsum(ref) + cu.mass - cu.mass), bool(gotd + cu.current - cu.current == dimsum(ref) + cu.amount - cu.amount)))
+        if bad is None and va != (True, True):
+            bad = ("own dimensionality written with cancelled entries under different keys", va)
         for k in A.DIMS[:6]:
             for step in (1, -1):
                 nb = dict(ref)
@@ -674,10 +678,12 @@ def op_hr(res, choice, scale):
     choice = tuple(choice)
     reg = A.registry_real(choice, E()["u"], A.HR_UNITS)
     regm = A.registry_model(choice, A.HR_UNITS)
+    int_spelling = scale.endswith("[int]")  # the factor of every entry written as an integer in the human-readable form
+    scale = scale.replace("[int]", "")
     sc = Fr(scale)
     if sc != 1:
         reg = {k: float(sc) * v for k, v in reg.items()}
-    case = dict(op="hr", args=[list(choice), scale], registry=[A.HR_UNITS[A.DIMS[i]][c][0] for i, c in enumerate(choice)])
+    case = dict(op="hr", args=[list(choice), scale + ("[int]" if int_spelling else "")], registry=[A.HR_UNITS[A.DIMS[i]][c][0] for i, c in enumerate(choice)])
     for n in case["registry"]:
         res.symbols["hr-unit:" + n] += 1
     res.states += 1
@@ -689,8 +695,22 @@ def op_hr(res, choice, scale):
         res.outcomes["hr-to-RAISED"] += 1
         res.violation("C09|unit_registry_to_human_readable|registry|raises", "unit_registry_to_human_readable(%s x %s) raised %s" % (scale, case["registry"], hr), case, hr, "dict")
         return
+    if int_spelling:
+        # a hand-written (or JSON) human-readable registry spells whole factors as integers: 1000, not 1000.0
+        hr = {k: ((int(v[0]) if float(v[0]) == int(float(v[0])) else v[0]), v[1]) for k, v in hr.items()}
     back = _obs(lambda: cu.unit_registry_from_human_readable(hr))
     res.evaluations += 1
+    if int_spelling and not _isexc(back):
+        # the registry read back is usable: a concentration converts into it with the exact ratio
+        q = 0.125 * E()["u"].molar
+        conc_f = float(sc) ** (1 - 3) * float(regm["amount"].f / regm["length"].f ** 3)
+        got = _obs(lambda: float(cu.unitless_in_registry(q, back)))
+        want = 125.0 / conc_f
+        if _isexc(got) or not A.close(got, want, 1e-10):
+            res.outcomes["hr-int-spelling-registry-UNUSABLE"] += 1
+            res.violation("C09|unit_registry_from_human_readable|integer-factors|registry-unusable", "registry read from %r (whole factors written as integers): unitless_in_registry(0.125 molar) = %r, exact ratio gives %r" % (
+                hr, got, want), dict(op="hr", args=[list(choice), scale + "[int]"]), got, want)
+            return
     if _isexc(back):
         # which entry is it?  (diagnosis only: each entry alone inside the human-readable SI registry)
         si_hr = cu.unit_registry_to_human_readable(cu.SI_base_registry)
@@ -726,7 +746,7 @@ def _layer_D(res, j, J):
     for idx, choice in enumerate(A.registries(A.HR_UNITS)):
         if idx % J != j:
             continue
-        for scale in ("1", "1/10"):
+        for scale in ("1", "1/10", "1000[int]", "10000000[int]"):
             op_hr(res, choice, scale)
     if j == 0:
         regs = A.registries()
